@@ -22,6 +22,8 @@ Definition prop_names : list string := [].
 Definition functions : list fndef :=
   [ {| fname := "translator-failed"; fwhere := "translate/errflow refused the source tree";
        fbody := Other "translate/errflow refused the source tree" |} ].
+Definition site_census : list (string * nat) := [].
+Definition target_error_types : list (string * string * bool) := [].
 EOD
   exit 2
 fi
